@@ -12,6 +12,7 @@
 # You should have received a copy of the GNU Lesser General Public
 # License along with this library.  If not, see <http://www.gnu.org/licenses/>.
 
+import builtins
 import collections
 import pathlib
 import sys
@@ -347,6 +348,8 @@ class SpaceTranslator(ParentTranslator):
 
     class _c_{name}(_mx_sys.BaseSpace):
 
+    {builtin_params}
+
         def __init__(self, parent):
 
             # modelx variables
@@ -471,8 +474,23 @@ class SpaceTranslator(ParentTranslator):
         # To make sure to prefix refs with 'self.' that have builtin names,
         # Add dummy ref assignments to function definitions.
         # These assignments are removed by FormulaTransformer.
+        # Child spaces and the parameters of this space and of
+        # the enclosing spaces are attributes of the instance as well.
+        params = []
+        parent = space
+        while isinstance(parent, BaseSpace):
+            params.extend(parent.parameters or ())
+            parent = parent.parent
+
+        names = list(space.refs) + list(space.spaces) + params
+
+        # Outside of the ItemSpaces the parameters are not defined:
+        # those named like builtins refer to the builtins there.
+        builtin_params = [k + ' = ' + k for k in dict.fromkeys(params)
+                          if hasattr(builtins, k)]
+
         lines = []
-        for k, v in space.refs.items():
+        for k in dict.fromkeys(names):
             if k[0] != '_':
                 lines.append(k + ' = None')
 
@@ -550,6 +568,7 @@ class SpaceTranslator(ParentTranslator):
 
         return self.class_template.format(
             name=space.name,
+            builtin_params=textwrap.indent("\n".join(builtin_params), ' ' * 4),
             cells_name_list=textwrap.indent(self.cells_name_list(space), ' ' * 4),
             space_assigns=textwrap.indent(self.space_assigns(space), ' ' * 8),
             space_dict=textwrap.indent(self.space_dict(space), ' ' * 8),
